@@ -79,13 +79,75 @@ func (vm *VM) runRecoverable() (err error) {
 		}
 	}()
 	if vm.fn != nil || vm.nextCall() {
-		vm.run()
+		for {
+			if addr, _ := vm.run(0); addr != resumeAddr {
+				break
+			}
+		}
 	}
 	panicking = false
 	return nil
 }
 
-func (vm *VM) run() (Addr, bool) {
+// resumeAddr is the address returned by run, when it runs the body of a range
+// statement, to indicate that the Go loops of the range statements of the
+// functions no longer running have to be left, and that the execution resumes
+// from the current program counter.
+const resumeAddr Addr = maxUint32 - 1
+
+// runRangeBody runs the body of a range statement executed when the call stack
+// had depth calls. It returns as the run method does.
+//
+// A panic in the body does not unwind the Go stack beyond this call, otherwise
+// the state of the range statements in execution would be lost and they could
+// not continue if the panic is recovered: it is handled here as runFunc does.
+func (vm *VM) runRangeBody(depth int) (Addr, bool) {
+	for {
+		addr, breakOut := vm.runRecoverableRangeBody(depth)
+		if addr != resumeAddr || len(vm.calls) < depth {
+			return addr, breakOut
+		}
+	}
+}
+
+func (vm *VM) runRecoverableRangeBody(depth int) (addr Addr, breakOut bool) {
+	panicking := true
+	defer func() {
+		if !panicking {
+			return
+		}
+		msg := recover()
+		p, ok := vm.convertPanic(msg).(*PanicError)
+		if !ok {
+			panic(msg)
+		}
+		p.next = vm.panic
+		vm.panic = p
+		addr, breakOut = maxUint32, false
+		if len(vm.calls) == 0 {
+			return
+		}
+		vm.calls = append(vm.calls, callFrame{cl: callable{fn: vm.fn}, renderer: vm.renderer, fp: vm.fp, status: panicked})
+		vm.fn = nil
+		if vm.nextCall() {
+			addr = resumeAddr
+		}
+	}()
+	addr, breakOut = vm.run(depth)
+	panicking = false
+	return addr, breakOut
+}
+
+// run runs the code starting from the current program counter.
+//
+// If it has been called to run the body of a range statement, depth is the
+// number of calls in the call stack when the statement has been executed,
+// otherwise it is zero. When the function executing the statement returns from
+// inside the body, run returns resumeAddr: the Go loops that iterate the range
+// statements of the returned functions are then left, and the execution
+// resumes, from the current program counter, in the innermost loop of a
+// function that is still running, see runRangeBody, or in runRecoverable.
+func (vm *VM) run(depth int) (Addr, bool) {
 
 	var hasDefaultCase bool
 	var startNativeGoroutine bool
@@ -1223,6 +1285,7 @@ func (vm *VM) run() (Addr, bool) {
 
 		// Range
 		case OpRange:
+			depth := len(vm.calls)
 			endAddress := vm.pc
 			rangeAddress := endAddress - 1
 			bodyAddress := endAddress + 1
@@ -1237,7 +1300,7 @@ func (vm *VM) run() (Addr, bool) {
 						vm.setInt(c, int64(v))
 					}
 					vm.pc = bodyAddress
-					addr, breakOut := vm.run()
+					addr, breakOut := vm.runRangeBody(depth)
 					if addr != rangeAddress {
 						return addr, breakOut
 					}
@@ -1254,7 +1317,7 @@ func (vm *VM) run() (Addr, bool) {
 						vm.setInt(c, int64(v))
 					}
 					vm.pc = bodyAddress
-					addr, breakOut := vm.run()
+					addr, breakOut := vm.runRangeBody(depth)
 					if addr != rangeAddress {
 						return addr, breakOut
 					}
@@ -1271,7 +1334,7 @@ func (vm *VM) run() (Addr, bool) {
 						vm.setInt(c, int64(v))
 					}
 					vm.pc = bodyAddress
-					addr, breakOut := vm.run()
+					addr, breakOut := vm.runRangeBody(depth)
 					if addr != rangeAddress {
 						return addr, breakOut
 					}
@@ -1288,7 +1351,7 @@ func (vm *VM) run() (Addr, bool) {
 						vm.setFloat(c, v)
 					}
 					vm.pc = bodyAddress
-					addr, breakOut := vm.run()
+					addr, breakOut := vm.runRangeBody(depth)
 					if addr != rangeAddress {
 						return addr, breakOut
 					}
@@ -1305,7 +1368,7 @@ func (vm *VM) run() (Addr, bool) {
 						vm.setString(c, v)
 					}
 					vm.pc = bodyAddress
-					addr, breakOut := vm.run()
+					addr, breakOut := vm.runRangeBody(depth)
 					if addr != rangeAddress {
 						return addr, breakOut
 					}
@@ -1322,7 +1385,7 @@ func (vm *VM) run() (Addr, bool) {
 						vm.setGeneral(c, reflect.ValueOf(v))
 					}
 					vm.pc = bodyAddress
-					addr, breakOut := vm.run()
+					addr, breakOut := vm.runRangeBody(depth)
 					if addr != rangeAddress {
 						return addr, breakOut
 					}
@@ -1339,7 +1402,7 @@ func (vm *VM) run() (Addr, bool) {
 						vm.setInt(c, int64(v))
 					}
 					vm.pc = bodyAddress
-					addr, breakOut := vm.run()
+					addr, breakOut := vm.runRangeBody(depth)
 					if addr != rangeAddress {
 						return addr, breakOut
 					}
@@ -1356,7 +1419,7 @@ func (vm *VM) run() (Addr, bool) {
 						vm.setBool(c, v)
 					}
 					vm.pc = bodyAddress
-					addr, breakOut := vm.run()
+					addr, breakOut := vm.runRangeBody(depth)
 					if addr != rangeAddress {
 						return addr, breakOut
 					}
@@ -1373,7 +1436,7 @@ func (vm *VM) run() (Addr, bool) {
 						vm.setString(c, v)
 					}
 					vm.pc = bodyAddress
-					addr, breakOut := vm.run()
+					addr, breakOut := vm.runRangeBody(depth)
 					if addr != rangeAddress {
 						return addr, breakOut
 					}
@@ -1390,7 +1453,7 @@ func (vm *VM) run() (Addr, bool) {
 						vm.setGeneral(c, reflect.ValueOf(v))
 					}
 					vm.pc = bodyAddress
-					addr, breakOut := vm.run()
+					addr, breakOut := vm.runRangeBody(depth)
 					if addr != rangeAddress {
 						return addr, breakOut
 					}
@@ -1410,7 +1473,7 @@ func (vm *VM) run() (Addr, bool) {
 							vm.setRangeValue(c, iter.Value())
 						}
 						vm.pc = bodyAddress
-						addr, breakOut := vm.run()
+						addr, breakOut := vm.runRangeBody(depth)
 						if addr != rangeAddress {
 							return addr, breakOut
 						}
@@ -1447,7 +1510,7 @@ func (vm *VM) run() (Addr, bool) {
 							vm.setRangeValue(b, u)
 						}
 						vm.pc = bodyAddress
-						addr, breakOut := vm.run()
+						addr, breakOut := vm.runRangeBody(depth)
 						if addr != rangeAddress {
 							return addr, breakOut
 						}
@@ -1478,7 +1541,7 @@ func (vm *VM) run() (Addr, bool) {
 							vm.setRangeValue(c, v.Index(i))
 						}
 						vm.pc = bodyAddress
-						addr, breakOut := vm.run()
+						addr, breakOut := vm.runRangeBody(depth)
 						if addr != rangeAddress {
 							return addr, breakOut
 						}
@@ -1493,6 +1556,7 @@ func (vm *VM) run() (Addr, bool) {
 
 		// RangeString
 		case OpRangeString, -OpRangeString:
+			depth := len(vm.calls)
 			endAddress := vm.pc
 			rangeAddress := endAddress - 1
 			bodyAddress := endAddress + 1
@@ -1505,7 +1569,7 @@ func (vm *VM) run() (Addr, bool) {
 					vm.setInt(c, int64(e))
 				}
 				vm.pc = bodyAddress
-				addr, breakOut := vm.run()
+				addr, breakOut := vm.runRangeBody(depth)
 				if addr != rangeAddress {
 					return addr, breakOut
 				}
@@ -1642,6 +1706,11 @@ func (vm *VM) run() (Addr, bool) {
 				vm.pc = call.pc
 			} else if !vm.nextCall() {
 				return maxUint32, false
+			}
+			if len(vm.calls) < depth {
+				// The function that executes the range statement, in whose
+				// body this code was running, has returned.
+				return resumeAddr, false
 			}
 
 		// Select
